@@ -1000,7 +1000,9 @@ func (c *CharClassMatcher) NullableVisit(rules map[string]*Rule) bool {
 
 // IsNullable returns the nullable attribute of the node.
 func (c *CharClassMatcher) IsNullable() bool {
-	return len(c.Chars) == 0 && len(c.Ranges) == 0 && len(c.UnicodeClasses) == 0
+	// A character class consumes exactly one rune or fails: it never
+	// matches the empty string (not even the empty classes [] and [^]).
+	return false
 }
 
 // InitialNames returns names of nodes with which an expression can begin.
